@@ -67,7 +67,7 @@ class C08(object):
     assumptions = ['country order and Region default-currency inheritance are documented order dependence and fixed',
                    'wiring calls (AddSupplier, SetExogenous, RegisterCashFlow, portfolio rules) follow the declarations']
     required_counters = ('builds.compared', 'builds.compared_exactly', 'orders.distinct',
-                         'zone_queried_during_construction.cases', 'parameter_chain_across_sectors.cases')
+                         'zone_queried_during_construction.cases', 'parameter_chain_across_sectors.cases', 'two_markets_household_buyer_nondefault_codes.cases')
 
     def n_cases(self, tier):
         return 12 if tier == 'quick' else 30 + 270
@@ -89,7 +89,12 @@ class C08(object):
             # scalar parameters chained through several sectors (their time-zero values must not depend on the order)
             import random as _r
             M.add_param_chain(_r.Random('pchain:%d:%d' % (idx, rng.getrandbits(20))), spec)
-        return {'kind': 'orders', 'spec': spec, 'order_seeds': [rng.getrandbits(30) for _ in range(n)],
+        codes = None
+        if idx % 3 == 0:
+            # two markets with prefix-related codes in which government AND household buy, a non-default labour code
+            import random as _r2
+            codes = M.force_two_markets_with_household_buyer(_r2.Random('two_markets:%d:%d' % (idx, rng.getrandbits(20))), spec)
+        return {'kind': 'orders', 'codes': codes, 'spec': spec, 'order_seeds': [rng.getrandbits(30) for _ in range(n)],
                 'ext_first': [rng.random() < 0.5 for _ in range(n)],
                 # the public zone API (GetSectors / LookupSector) is used while the sectors are being declared
                 'query_zone': idx % 2 == 0}
@@ -103,7 +108,10 @@ class C08(object):
             rec.count('zone_queried_during_construction.cases')
         if spec.get('param_chain'):
             rec.count('parameter_chain_across_sectors.cases')
-        base = M.build(spec, query_zone=qz)
+        codes = case.get('codes')
+        if codes:
+            rec.count('two_markets_household_buyer_nondefault_codes.cases')
+        base = M.build(spec, query_zone=qz, codes=codes)
         if base.error is not None:
             return {'verdict': 'notjudged', 'shape': shape + '|base:' + type(base.error).__name__}
         try:
@@ -114,7 +122,7 @@ class C08(object):
         variants = []
         if case['kind'] == 'orders':
             for sd, ef in zip(case['order_seeds'], case['ext_first']):
-                variants.append({'order_seed': sd, 'ext_first': ef, 'query_zone': qz,
+                variants.append({'order_seed': sd, 'ext_first': ef, 'query_zone': qz, 'codes': codes,
                                  'run_via_steps': len(variants) % 3 == 2})
         else:
             ck = spec['zones'][0]['countries'][0]['key']
